@@ -81,6 +81,12 @@ def wrap_1d(kind, data, name):
         return pd.Series(arr.astype(np.int64), name=name)
     if kind == "pd_series_Int64":
         return pd.Series([None if math.isnan(x) else int(x) for x in data], dtype="Int64", name=name)
+    if kind == "pd_series_f32":
+        return pd.Series(arr.astype(np.float32), name=name)
+    if kind == "pl_series_f32":
+        return pl.Series(name or "", arr.astype(np.float32))
+    if kind == "array_f32":
+        return arr.astype(np.float32)
     if kind == "pl_series":
         return pl.Series(name or "", arr)
     if kind == "pl_series_int":
@@ -143,8 +149,18 @@ def check_1d(case, ctx: Ctx):
     refkw = dict(kw)
     if ws is not None:
         refkw["weights"] = warr
+    if kind.endswith("_f32"):
+        # single-precision containers: the reference is the float32 numpy array holding the same values
+        data = [float(np.float32(x)) for x in data]
     container = wrap_1d(kind, data, name)
     arr = np.array(data, dtype=float)
+    if kind.endswith("_f32"):
+        arr = arr.astype(np.float32)
+        ctx.label("single_precision")
+    if case.get("bins_count") and not has_nan and len(np.unique(arr.astype(float))) >= 2:
+        # a bin count instead of explicit edges: the edges are then derived from the data themselves
+        edges = case["bins_count"]
+        ctx.label("bins_from_count")
     if kind in ("nested", "array2d", "array2d_fortran", "array2d_view") and len(data):
         arr = arr.reshape(2 if len(data) % 2 == 0 else 1, -1)
     if has_nan and not case["dropna"]:
@@ -185,7 +201,8 @@ def cases_1d(draw, tier="quick"):
     if nan and data and draw(st.booleans()):
         data[draw(st.integers(0, len(data) - 1))] = float("nan")
     kind = draw(st.sampled_from(["list", "tuple", "iterator", "generator", "nested", "array2d", "array2d_fortran", "array2d_view", "pd_series", "pd_series", "pd_series", "pd_series_int",
-                                 "pd_series_Int64", "pd_series_Int64", "pl_series", "pl_series", "pl_series_int", "pl_frame1", "dask", "array2d_fortran", "array2d_view"]))
+                                 "pd_series_Int64", "pd_series_Int64", "pl_series", "pl_series", "pl_series_int", "pl_frame1", "dask", "array2d_fortran", "array2d_view",
+                                 "pd_series_f32", "pd_series_f32", "pl_series_f32", "array_f32"]))
     wk, ws = draw(gen.weights_for(len(data), kinds=("none", "int", "dyadic")))
     wcont = draw(st.sampled_from(["array", "array", "list", "pd_series", "pl_series"]))
     if wcont == "pl_series" and not kind.startswith("pl_"):
@@ -201,7 +218,8 @@ def cases_1d(draw, tier="quick"):
         ws = [i % 7 + 1 for i in range(len(data))]  # non-uniform, so that a re-ordering of the values shows
     return {"pairs": ps, "data": data, "kind": kind, "weights": ws, "wcontainer": wcont, "dropna": dropna,
             "name": draw(st.sampled_from([None, "x", "energy"])), "axis_name": draw(st.sampled_from([None, None, "given"])),
-            "via": draw(st.sampled_from(["h1", "h1", "accessor"]))}
+            "via": draw(st.sampled_from(["h1", "h1", "accessor"])),
+            "bins_count": draw(st.sampled_from([None, None, 10, 5, 3])) if len(set(x for x in data if x == x)) >= 2 else None}
 
 
 # ---------------------------------------------------------------------------------
@@ -329,6 +347,17 @@ def check_refusals(case, ctx: Ctx):
     elif kind == "polars_nulls":
         ctx.refused("h1(polars Series with nulls)", physt.h1, pl.Series("s", list(vals) + [None]), e)
         ctx.refused("h(polars DataFrame with nulls)", physt.h, pl.DataFrame({"a": list(vals) + [None], "b": list(vals) + [1.0]}), [e, e])
+    elif kind == "null_weights":
+        # nulls hidden in a *weights* Series: refused like nulls in the data, whatever holds the data
+        n = len(vals)
+        for wdt in (pl.Float64, pl.Int64):
+            w = pl.Series("w", [None] + [1] * (n - 1) if wdt == pl.Int64 else [None] + [1.5] * (n - 1), dtype=wdt)
+            ctx.refused("h1(list, weights=polars Series with a null)", physt.h1, list(vals), e, weights=w)
+            ctx.refused("h1(array, weights=polars Series with a null)", physt.h1, np.array(vals), e, weights=w)
+            ctx.refused("h1(polars Series, weights=polars Series with a null)", physt.h1, pl.Series("s", list(vals)), e, weights=w)
+            ctx.refused("h1(pandas Series, weights=polars Series with a null)", physt.h1, pd.Series(list(vals)), e, weights=w)
+            ctx.refused("h2(.., weights=polars Series with a null)", physt.h2, list(vals), list(vals), [e, e], weights=w)
+            ctx.refused("polars accessor, weights=polars Series with a null", pl.Series("s", list(vals)).physt.h1, e, weights=w)
     elif kind == "frame_to_h1":
         ctx.refused("h1(DataFrame)", physt.h1, pd.DataFrame({"a": vals, "b": vals}), e)
         ctx.refused("h1(polars DataFrame)", physt.h1, pl.DataFrame({"a": vals, "b": vals}), e)
@@ -351,7 +380,7 @@ def check_refusals(case, ctx: Ctx):
 
 @st.composite
 def refusal_cases(draw, tier="quick"):
-    return {"kind": draw(st.sampled_from(["strings", "object_dtype", "polars_nulls", "frame_to_h1", "series_to_h", "ragged", "scalar", "wrong_weights", "wrong_dim"])),
+    return {"kind": draw(st.sampled_from(["strings", "object_dtype", "polars_nulls", "frame_to_h1", "series_to_h", "ragged", "scalar", "wrong_weights", "wrong_dim", "null_weights"])),
             "values": draw(st.lists(st.floats(0, 2, allow_nan=False), min_size=1, max_size=6))}
 
 
